@@ -279,6 +279,11 @@ func genResp(r *hv.Rng) (string, []byte) {
 	var out []byte
 	n := r.Intn(6)
 	hasErr := false
+	if r.Chance(1, 120) { // content + padding beyond 65535 (16-bit sum would wrap)
+		c := r.Bytes(65535 - r.Intn(300))
+		out = append(out, rec(6, 1, c, []int{255, 254, 1, 0, 200}[r.Intn(5)])...)
+		class += "-hugerec"
+	}
 	for i := 0; i < n; i++ {
 		typ := byte(6)
 		switch r.Intn(12) {
@@ -519,7 +524,7 @@ func gen(r *hv.Rng, i int, tier string) (string, hv.Val) {
 	}
 	class := "req"
 	np := r.Intn(5)
-	huge := r.Chance(1, 400)
+	huge := r.Chance(1, 120)
 	var ps hv.L
 	seen := map[string]bool{}
 	for j := 0; j < np; j++ {
@@ -541,7 +546,13 @@ func gen(r *hv.Rng, i int, tier string) (string, hv.Val) {
 	}
 	if huge {
 		class += "-huge"
-		switch r.Intn(4) {
+		switch r.Intn(7) {
+		case 4, 5: // one pair whose encoding is exactly maxWrite-1 / maxWrite / maxWrite+1 bytes
+			ps = hv.L{hv.L{hv.S("A"), hv.B(r.Bytes(65500 - 6 + r.Range(-1, 1)))}}
+		case 6: // two pairs whose encodings sum to maxWrite-1 / maxWrite / maxWrite+1 (flush decision)
+			a := r.Range(30000, 33000)
+			b := 65500 + r.Range(-1, 1) - (6 + a) - 6
+			ps = hv.L{hv.L{hv.S("A"), hv.B(r.Bytes(a))}, hv.L{hv.S("B"), hv.B(r.Bytes(b))}}
 		case 0: // value that does not fit one record
 			ps = append(ps, hv.L{hv.S("HTTP_COOKIE"), hv.B(r.Bytes(r.Range(65400, 70500)))})
 		case 1: // very long name
@@ -579,5 +590,5 @@ func gen(r *hv.Rng, i int, tier string) (string, hv.Val) {
 }
 
 func main() {
-	hv.Main(&hv.Spec{Prop: "C55", Gen: gen, Impl: impl, Setup: setup, NQuick: 4000, NThorough: 150000})
+	hv.Main(&hv.Spec{Prop: "C55", Gen: gen, Impl: impl, Setup: setup, NQuick: 3300, NThorough: 150000})
 }
